@@ -161,7 +161,7 @@ PROPS = {
         "assumptions": STD_ASSUME_PURE + ["piece length handed to the task is Metainfo::piece_length(i) (C03)"],
     },
     "C09": {
-        "lean_modules": ["RdestModel.Props.C09"],
+        "lean_modules": ["RdestModel.Props.C09", "RdestModel.Props.C09Whole"],
         "cases": {"quick": 400, "thorough": 12000},
         "rule": "scripts for the real connection task: after the handshake, block requests with index in/out of range, begin in "
                 "{0,1,16,len-1,len,len+1,2^31,2^32-6,2^32-1}, length in {0,1,6,10,16,64,16384,16385,2^32-1} against stored pieces of 64..20000 bytes; "
